@@ -1,6 +1,7 @@
 import JV.Drv.Common
 import JV.Spec.Cbor
 import JV.Spec.BinFormats
+import JV.Model.Cbor
 namespace JV
 namespace Drv
 open Spec.Cbor
@@ -32,6 +33,41 @@ mutual
     | (k, x) :: ms => ("k" ++ Wire.hexOfBytes k) :: (bvTokens x ++ bvMembers ms)
 end
 
+/-- wire value (core only) → the encoder model's value -/
+partial def cvOfTokens : List String → Option (Model.Cbor.CV × List String)
+  | [] => none
+  | tok :: rest =>
+    if tok.contains '@' then none
+    else match tok.toList with
+    | ['n'] => some (.null, rest)
+    | ['t'] => some (.bool true, rest)
+    | ['f'] => some (.bool false, rest)
+    | 'i' :: cs => (String.ofList cs).toInt?.map fun i => (.int i, rest)
+    | 'd' :: cs => (Wire.bytesOfHexChars cs).map fun b => (.dbl (Spec.Cbor.beVal b), rest)
+    | 's' :: cs => (Wire.bytesOfHexChars cs).map fun b => (.str b, rest)
+    | 'b' :: cs => (Wire.bytesOfHexChars cs).map fun b => (.bytes b, rest)
+    | ['['] =>
+      let rec elems (acc : List Model.Cbor.CV) (ts : List String) : Option (Model.Cbor.CV × List String) :=
+        match ts with
+        | "]" :: r => some (.arr acc.reverse, r)
+        | _ => match cvOfTokens ts with
+          | none => none
+          | some (x, r) => elems (x :: acc) r
+      elems [] rest
+    | ['{'] =>
+      let rec mems (acc : List (Bytes × Model.Cbor.CV)) (ts : List String) : Option (Model.Cbor.CV × List String) :=
+        match ts with
+        | "}" :: r => some (.map acc.reverse, r)
+        | k :: r1 =>
+          (match k.toList with
+          | 'k' :: cs => match Wire.bytesOfHexChars cs, cvOfTokens r1 with
+            | some kb, some (x, r2) => mems ((kb, x) :: acc) r2
+            | _, _ => none
+          | _ => none)
+        | [] => none
+      mems [] rest
+    | _ => none
+
 /-- bin sdec <fmt> x<bytes> -/
 def binaryLine : List String → String
   | ["sdec", fmt, x] =>
@@ -43,6 +79,10 @@ def binaryLine : List String → String
       | .ok v _ => "ok " ++ " ".intercalate (bvTokens v)
       | .illformed => "ill"
       | .unjudged => "unjudged"
+  | "menc" :: "cbor" :: toks =>
+    match cvOfTokens toks with
+    | some (v, []) => "ok x" ++ Wire.hexOfBytes (Model.Cbor.encode v)
+    | _ => ""
   | _ => ""
 
 end Drv
